@@ -39,6 +39,27 @@ pub fn verify(pk: &[u8], msg: &[u8], sig: &[u8]) -> bool {
     vk.verify(msg, &Signature::from_bytes(&sig)).is_ok()
 }
 
+/// A 32-byte string that is not the encoding of any curve point (first of 02 00.., 03 00.., …
+/// that does not decompress).
+pub fn non_point_key() -> [u8; 32] {
+    for k in 2u8..=255 {
+        let mut c = [0u8; 32];
+        c[0] = k;
+        if VerifyingKey::from_bytes(&c).is_err() {
+            return c;
+        }
+    }
+    unreachable!("no non-point among 02..ff")
+}
+
+/// The signature (R = neutral element, s = 0): valid for every message under the neutral-element
+/// "key" with cofactorless verification, and under no genuine key.
+pub fn neutral_signature() -> [u8; 64] {
+    let mut s = [0u8; 64];
+    s[0] = 1;
+    s
+}
+
 /// SRV commitment value: first 32 bytes of SHA-512(0xff || public key).
 pub fn srv_value(pk: &[u8]) -> [u8; 32] {
     let h = sha512(&[&[0xffu8], pk]);
